@@ -75,6 +75,11 @@ pub async fn record(workload: &[Op], start_idx: Idx, backend: Backend, fault_at:
     record_with_prelude(&[], workload, start_idx, backend, fault_at).await
 }
 
+thread_local! {
+    /// Which answer a scripted fault gives (default: the write lands, an error is returned).
+    pub static FAULT_ANSWER: std::cell::Cell<Answer> = const { std::cell::Cell::new(Answer::ErrAfter) };
+}
+
 /// Like `record`, but first runs `prelude` (not part of the enumerated
 /// workload: its ops are acknowledged history; `Recorded::prelude_end` is the
 /// journal length after it, crash points before that are not enumerated).
@@ -85,7 +90,7 @@ pub async fn record_with_prelude(prelude: &[Op], workload: &[Op], start_idx: Idx
     if prelude.is_empty()
         && let Some(i) = fault_at
     {
-        ctl.script(i, Answer::ErrAfter);
+        ctl.script(i, FAULT_ANSWER.with(|a| a.get()));
     }
     let store = wrap(backend, &cs);
     let mut rec = Recorded {
@@ -118,7 +123,7 @@ pub async fn record_with_prelude(prelude: &[Op], workload: &[Op], start_idx: Idx
             if !prelude.is_empty()
                 && let Some(i) = fault_at
             {
-                ctl.script(rec.prelude_attempts + i, Answer::ErrAfter);
+                ctl.script(rec.prelude_attempts + i, FAULT_ANSWER.with(|a| a.get()));
             }
             for op in workload {
                 if matches!(op, Op::CompactBm25) && !fx.idx.body {
@@ -395,6 +400,9 @@ pub async fn check_state(fx: &Fixture, exp: &Expectation) -> (Vec<(String, Strin
             }
             if exp.want_idx.age_opt && docs[i].age == docs[j].age && docs[i].opt == docs[j].opt {
                 problems.push(("unique".into(), format!("documents {} and {} share the multi-field tuple (age, opt)", docs[i]._id, docs[j]._id)));
+            }
+            if exp.want_idx.opt_opt2 && docs[i].opt == docs[j].opt && docs[i].opt2 == docs[j].opt2 {
+                problems.push(("unique".into(), format!("documents {} and {} share the multi-field tuple (opt, opt2)", docs[i]._id, docs[j]._id)));
             }
             if exp.want_idx.codes && docs[i].codes.iter().any(|c| docs[j].codes.contains(c)) {
                 problems.push(("unique".into(), format!("documents {} and {} share a unique code", docs[i]._id, docs[j]._id)));
